@@ -66,11 +66,11 @@ def lookupWorld (w : List (Str × Option Bytes)) (p : Str) : Option Bytes :=
   | some (_, c) => c
   | none => none
 
-def tworldOf : List String → List (Str × Option Str)
-  | p :: c :: rest => (uncp p, if c == "missing" then none else some (uncp c)) :: tworldOf rest
+def tworldOf : List String → List (Str × Option Conv.Listing)
+  | p :: c :: rest => (uncp p, if c == "missing" then none else if c == "undecodable" then some .undecodable else some (.text (uncp c))) :: tworldOf rest
   | _ => []
 
-def lookupText (w : List (Str × Option Str)) (p : Str) : Option Str :=
+def lookupText (w : List (Str × Option Conv.Listing)) (p : Str) : Option Conv.Listing :=
   match w.find? (fun e => e.1 == p) with
   | some (_, c) => c
   | none => none
@@ -136,7 +136,7 @@ def handle (args : List String) : String :=
       let w := tworldOf (rest.drop n.toNat!)
       -- outside the modelled domain: source names beyond ASCII (`upper()` is Python's), a listing beyond ASCII given to the
       -- tokenizing conversion (C13 / C14 are about ASCII listings)
-      if srcs.any (fun s => s.any (· ≥ 128)) || srcs.any (fun s => match lookupText w s with | some t => t.any (· ≥ 128) | none => false)
+      if srcs.any (fun s => s.any (· ≥ 128)) || srcs.any (fun s => match lookupText w s with | some (.text t) => t.any (· ≥ 128) | _ => false)
       then "unmodelled" else showConv (Conv.lst2basRun (lookupText w) srcs)
   | "conv.bas2lst" :: dos :: n :: rest =>
       let srcs := (rest.take n.toNat!).map uncp
